@@ -425,10 +425,11 @@ func runC10(tier string) int {
 	code := rep.Finish()
 	cov := map[string]any{
 		"evaluations": len(inputs), "distinct_nontrivial": len(outcomes),
-		"rule":              "inputs = every parent function on 3 queues over {root,q0,q1,q2,missing} x 2 workload placements; every sub-group parent graph on 3 sub-groups x minMember {-1,0,1,5}; duplicate/case-differing sub-group names x missing queue; flat groups x minMember x {zero pods, pods on unknown nodes}; 3 GPU annotations x a list of malformed number literals x {pending, running}; 16 malformed nodes x 4 workloads; dangling references. Each input + one healthy queue/workload/node runs through ONE real scheduler cycle in a worker with a 10 s CPU watchdog and ulimit -v 4G. distinct_nontrivial = distinct (input class, panic?, open error?, healthy workload bound?, number of decisions) outcomes",
+		"rule":              "inputs = every parent function on 3 queues over {root,q0,q1,q2,missing} x 2 workload placements; every sub-group parent graph on 3 sub-groups x minMember {-1,0,1,5}; duplicate/case-differing sub-group names x missing queue; flat groups x minMember x {zero pods, pods on unknown nodes}; 3 GPU annotations x a list of malformed number literals x {pending, running}; 16 malformed nodes x 4 workloads; dangling references. Each input + one healthy queue/workload/node runs through ONE real scheduler cycle in a worker with a 10 s CPU watchdog and ulimit -v 4G; an input on which the worker dies is re-run first in a fresh worker and reported only if the death repeats. distinct_nontrivial = distinct (input class, panic?, open error?, healthy workload bound?, number of decisions) outcomes",
 		"samples":           samples,
 		"inputs_per_class":  ck,
 		"cycles_completed":  completed,
+		"worker_deaths_retried_in_fresh_process": engine.RetriedDeaths,
 		"healthy_scheduled": healthy,
 		"exhaustive":        true,
 		"states":            len(inputs), "transitions": completed, "traces_validated_against_impl": completed,
